@@ -138,7 +138,6 @@ def make_wrapper(
             This means that those changes can be reverted from this point out.
             """
             self._configurable.commit()
-            object.__setattr__(self, "_reuse_pt", 0)
 
         def changes_count(self):
             """current commit point for the configurable"""
